@@ -323,7 +323,13 @@ def run(facts, tier):
             for a in n["arms"]:
                 special |= {x["lit"]["str"] for x in find(a["pat"], lambda n: n.get("k") == "Lit" and "str" in n.get("lit", {}))}
         quoted = set()
-        for n in find(mq["body"], lambda n: n.get("k") == "Lit"):
+        # literals written in must_quote itself and in the constants (tables of spellings) it refers to
+        mq_sources = [mq["body"]]
+        for n in find(mq["body"], lambda n: n.get("k") == "Path" and str((n["path"].get("dk") or "")).startswith(("Const", "Static", "AssocConst"))):
+            cf = facts.hir_fn(n["path"].get("def") or "")
+            if cf is not None and str(n["path"].get("def", "")).startswith("jaq_fmts::"):
+                mq_sources.append(cf["body"])
+        for n in find(mq_sources, lambda n: n.get("k") == "Lit"):
             b = lit_bytes(n)
             if b:
                 quoted.add(b.decode(errors="replace"))
